@@ -17,6 +17,9 @@ Driver for correspondence stream `ml` (property C15).  Requests:
   matvec  <bs> <bidx> <data> <x>          -> ints
   asmat   <bs> <bidx> <data>              -> triples
   rav     <arrays> <dims>                 -> list
+  sbidx   <bs> <bidx>                     -> list of nat lists (sequential_bidx)
+  gent    <bs> <bidx> <list of μ>         -> pairs     (positions asked by ReorderedTensorGenerator)
+  gent2   <bs> <bidx> <pairs (i,j)>       -> pairs     (positions asked by ReorderedMatrixGenerator, L = 2)
   kronp   <restrict> <As> <rows>          -> triples   (utils.kron_partial; A = m n <list of i j v>)
 where <bs>, a pattern = length-prefixed list of `a b` pairs, <bidx> = list of patterns.
 `asCoded` for the nd odometer is chosen by the first token suffix: `nonzero!`/`nznd!` = as in the
@@ -65,6 +68,16 @@ def request : P String := do
   | "spec" => do
       let lower ← bool; let S ← pStruct
       pure (showPairs (S.nonzeroSpec lower))
+  | "sbidx" | "sbidx!" => do
+      let S ← pStruct
+      pure (showList showNats (S.sequentialBidx (op == "sbidx!")))
+  | "gent" | "gent!" => do
+      let S ← pStruct; let mus ← list (list nat)
+      pure (showPairs (mus.map (S.generatorEntry (op == "gent!"))))
+  | "gent2" | "gent2!" => do
+      let S ← pStruct; let ijs ← pPairs
+      if S.bs.length ≠ 2 then pure "err-assertion" else
+      pure (showPairs (ijs.map (fun ij => S.generatorEntry2 (op == "gent2!") ij.1 ij.2)))
   | "rows" => do let S ← pStruct; let R ← list nat; pure (showTriples (S.nonzerosForRows R))
   | "cols" => do let S ← pStruct; let C ← list nat; pure (showPairs (S.nonzerosForColumns C))
   | "tidx" => do
